@@ -758,6 +758,37 @@ func (g *GuardCtx) splitPhi(goal Poly, ne bool, depth int) bool {
 	if depth >= 2 {
 		return false
 	}
+	// len(<slice phi>): the goal holds at every visit of the phi's block when it holds for every
+	// value entering from outside and is preserved along every back edge (induction: the goal for
+	// the phi itself is assumed while proving it for the back-edge value).
+	for _, s := range goal.Symbols() {
+		ph, ok := g.PC.lenSymVal[s].(*ssa.Phi)
+		if !ok || ne {
+			continue
+		}
+		b := ph.Block()
+		all := true
+		for i, e := range ph.Edges {
+			pred := b.Preds[i]
+			sub, _ := substPoly(goal, map[string]Poly{s: g.PC.lenOf(e)}, nil)
+			term := pred.Instrs[len(pred.Instrs)-1]
+			back := b.Dominates(pred)
+			if back {
+				g.extra = append(g.extra, Fact{D: goal, Why: "induction hypothesis for " + ph.Name()})
+			}
+			okE := !sub.Equal(goal) && g.proveOnEdge(sub, false, pred, b, term, depth+1)
+			if back {
+				g.extra = g.extra[:len(g.extra)-1]
+			}
+			if !okE {
+				all = false
+				break
+			}
+		}
+		if all {
+			return true
+		}
+	}
 	for _, s := range goal.Symbols() {
 		ph, ok := g.PC.symVal[s].(*ssa.Phi)
 		if !ok || !isIntLike(ph.Type()) {
